@@ -2,12 +2,12 @@
 # benigncheck.sh <diff>... : apply a behaviour-preserving change to /repo, run every check, report the verdicts; undo.
 # A VIOLATION here is a false alarm of the machinery.
 for patch in "$@"; do
-  git -C /repo apply $patch || { echo "$patch: does not apply"; continue; }
-  res=$(printf "%s\n" C01 C02 C03 C04 C05 C06 C07 C08 C09 C10 C11 C13 C14 C15 C16 C17 C18 C19 | xargs -P 9 -I{} sh -c 'VERIF_EVIDENCE_DIR=/tmp/seed_evidence /verif/check {} > /tmp/seed_evidence/{}.out 2>&1; echo "{}:$?"' | sort | tr '\n' ' ')
-  git -C /repo checkout -- .
+  git -C ${VERIF_REPO:-/repo} apply $patch || { echo "$patch: does not apply"; continue; }
+  res=$(printf "%s\n" C01 C02 C03 C04 C05 C06 C07 C08 C09 C10 C11 C13 C14 C15 C16 C17 C18 C19 | xargs -P 9 -I{} sh -c 'VERIF_EVIDENCE_DIR=${VERIF_EVIDENCE_DIR:-/tmp/seed_evidence} /verif/check {} > ${VERIF_EVIDENCE_DIR:-/tmp/seed_evidence}/{}.out 2>&1; echo "{}:$?"' | sort | tr '\n' ' ')
+  git -C ${VERIF_REPO:-/repo} checkout -- .
   viol=$(echo "$res" | tr ' ' '\n' | grep ":1" | tr '\n' ' ')
   und=$(echo "$res" | tr ' ' '\n' | grep ":2" | tr '\n' ' ')
   echo "$(basename $(dirname $(dirname $patch)))/$(basename $patch): violations=[${viol}] undecided=[${und}]"
-  for v in $viol; do p=${v%%:*}; grep -E "failed obl" /tmp/seed_evidence/$p.out | head -2 | cut -c1-300; done
-  for v in $und; do p=${v%%:*}; grep -E "^UNDECIDED" /tmp/seed_evidence/$p.out | head -1 | cut -c1-250; done
+  for v in $viol; do p=${v%%:*}; grep -E "failed obl" ${VERIF_EVIDENCE_DIR:-/tmp/seed_evidence}/$p.out | head -2 | cut -c1-300; done
+  for v in $und; do p=${v%%:*}; grep -E "^UNDECIDED" ${VERIF_EVIDENCE_DIR:-/tmp/seed_evidence}/$p.out | head -1 | cut -c1-250; done
 done
